@@ -1,6 +1,7 @@
 """C16 — polynomial and linear-combination types form the free algebra / free module they denote."""
 import copy, json, os
 from concurrent.futures import ThreadPoolExecutor
+from . import ext2
 
 
 ALL_OPS = ["reset", "zero", "one", "const", "var", "term", "from_terms", "copy", "add", "sub", "mul", "neg", "scale", "sum", "product", "pow",
@@ -157,6 +158,8 @@ def run(ctx):
         "monomial division is issued only when the quotient is a monomial of the type; negative powers and inv only where the specification says the element is a unit",
         "multivariate types are driven with variable indices 0..3 (sparse multi-degrees with gaps)",
         "lowest terms / positive denominator of Ratio coefficients is certified per coefficient by a Bezout witness re-multiplied by TLC (canonical scalar form itself is C14)"]
+    # extension: yui::Sign and the string helpers polynomial / linear-combination printing goes through
+    ext2.fmt_part(ctx)
 
 
 def replay(ctx, path):
